@@ -72,8 +72,10 @@ func DeriveKey(context string, salt []byte, privKey crypto.PrivKey, out []byte) 
 
 	// xor the material with context
 	contextb := []byte(context)
-	for i := range material {
-		material[i] = material[i] ^ contextb[i%len(contextb)]
+	if len(contextb) != 0 {
+		for i := range material {
+			material[i] = material[i] ^ contextb[i%len(contextb)]
+		}
 	}
 
 	// derive key with blake3
